@@ -19,7 +19,8 @@ import (
 )
 
 // lengths 4 and 8: not multiples of 3, so that the base64 padding matters
-var cfgLists = [][]byte{{0xfe, 0x0d, 1, 1}, {0xfe, 0x0d, 2, 2, 2, 2, 2, 2}}
+// (the third list's base64 text, "/G0baq==", is the first one's, "/g0BAQ==", with the letter case swapped: different lists)
+var cfgLists = [][]byte{{0xfe, 0x0d, 1, 1}, {0xfe, 0x0d, 2, 2, 2, 2, 2, 2}, {0xfc, 0x6d, 0x1b, 0x6a}}
 
 func b64(i int) string { return base64.StdEncoding.EncodeToString(cfgLists[i]) }
 
@@ -53,6 +54,9 @@ func newStore(v1 string, pages bool) *cfmem.API {
 		{ID: "rec1", Name: "example.org", Priority: 1, Target: ".", Value: v1},
 		{ID: "rec2", Name: "www.example.org", Priority: 2, Target: "svc.example.org", Value: `alpn="h2" ipv6hint=2001:db8::1`},
 		{ID: "rec9", Name: "untouched.example.org", Priority: 1, Target: ".", Value: `alpn="h3" ech="b2xk"`},
+		// records of OTHER types that share the targets' names (an API listing that is not restricted to HTTPS would return them)
+		{ID: "recA1", Name: "example.org", Type: "A", Value: "192.0.2.1"},
+		{ID: "recT2", Name: "www.example.org", Type: "TXT", Value: "v=spf1 -all"},
 	}}
 	if pages {
 		// 45 more records so that r1/r2 are spread over three pages
@@ -280,6 +284,9 @@ func run(r *ev.Run, sc scenario) {
 			ok := false
 			for _, t := range c.Targets {
 				tp := targetPool[t]
+				if strings.HasPrefix(id, "recA") || strings.HasPrefix(id, "recT") {
+					break // never a legitimate PATCH target
+				}
 				if (tp.Name == "example.org" && id == "rec1") || (tp.Name == "www.example.org" && id == "rec2") || (tp.Name == "example.net" && id == "rec3") {
 					ok = true
 				}
@@ -312,7 +319,7 @@ func dupKindAny(ts []int) string {
 }
 
 func Run(r *ev.Run) {
-	r.Rule("E4 histories of publishes on a fresh publisher + in-memory Cloudflare fake: initial value of the first record over 9 parameter strings (empty, no ech, ech first/middle/last, two ech entries, already current quoted/unquoted, a tab inside a quoted value with double blanks between parameters), zone on one page or spread over three pages (48 records), the API honouring the requested page size or capping it at 7/10/19 records per page; a record without parameters listed without its value member; calls = (target list over {r1, r2, missing record, unknown zone, record of a second zone} incl. duplicates, config list L1/L2); ALL histories of <=2 calls with lists of length <=2 (thorough <=3) and ALL histories of 3 calls with lists of length <=1; E2: a single API failure {HTTP 400, success:false with and without an errors list, malformed JSON, the caller's context cancelled} at every request index of every call (1-call and 2-call histories). A map-based model predicts each status; store and request log are checked after each call. distinct = distinct scenarios")
+	r.Rule("E4 histories of publishes on a fresh publisher + in-memory Cloudflare fake: initial value of the first record over 9 parameter strings (empty, no ech, ech first/middle/last, two ech entries, already current quoted/unquoted, a tab inside a quoted value with double blanks between parameters), zone on one page or spread over three pages (48 records), the API honouring the requested page size or capping it at 7/10/19 records per page; a record without parameters listed without its value member; calls = (target list over {r1, r2, missing record, unknown zone, record of a second zone} incl. duplicates, config list L1/L2, plus a third list whose base64 text differs from L1's only in letter case); the zones also hold A/TXT records under the targets' names; ALL histories of <=2 calls with lists of length <=2 (thorough <=3) and ALL histories of 3 calls with lists of length <=1; E2: a single API failure {HTTP 400, success:false with and without an errors list, malformed JSON, the caller's context cancelled} at every request index of every call (1-call and 2-call histories). A map-based model predicts each status; store and request log are checked after each call. distinct = distinct scenarios")
 	r.Assume("parameter values contain no blanks (the publisher splits on single spaces); tabs inside quoted values and runs of blanks between parameters are in the alphabet", "a record that already carries several ech entries whose last one is current is outside the alphabet",
 		"the fake API follows Cloudflare v4 list semantics: result_info.count is the number of items on the page, total_count the total")
 	maxList := 2
@@ -384,6 +391,15 @@ func Run(r *ev.Run) {
 					}
 				}
 			}
+		}
+	}
+	// the case-colliding list after (and before) the one it collides with, on every initial value, single-target lists
+	for v := 0; v < nv; v++ {
+		for _, a := range small {
+			if len(a.Targets) != 1 || a.Config != 0 {
+				continue
+			}
+			scs = append(scs, scenario{V1: v, Calls: []call{a, {a.Targets, 2}}, FailCall: -1}, scenario{V1: v, Calls: []call{{a.Targets, 2}, a}, FailCall: -1}, scenario{V1: v, Calls: []call{{a.Targets, 2}, {a.Targets, 2}}, FailCall: -1})
 		}
 	}
 	r.Set("scenarios", len(scs))
